@@ -351,7 +351,6 @@ Config(name) ==
           reqs |-> ChanReqs("c1", {<<>>, <<O("h1", 1)>>, <<O("h1", 2)>>, <<O("h1", 1), O("h1", 1)>>}, FALSE)
               \cup ChanReqs("c2", {<<>>, <<O("h1", 1)>>, <<O("h1", 2)>>}, FALSE)
               \cup {[op |-> "AddInvoice", h |-> "h1", a |-> 1], [op |-> "DeclineInvoice", h |-> "h1", a |-> 1],
-                    [op |-> "IssueInvoice", h |-> "h1", a |-> 1],
                     [op |-> "Fulfill", h |-> "h1"], [op |-> "Heartbeat"], [op |-> "Restart"]}]
     [] name = "parts" ->      \* multi-part payments, two invoice amounts, keysend, retries, pruning
          [chans |-> {"c1", "c2"}, hashes |-> {"h1"},
@@ -359,13 +358,14 @@ Config(name) ==
               \cup ChanReqs("c2", {<<>>, <<O("h1", 1)>>}, TRUE)
               \cup {[op |-> "AddInvoice", h |-> "h1", a |-> 2], [op |-> "AddKeysend", h |-> "h1", a |-> 1],
                     [op |-> "Fulfill", h |-> "h1"], [op |-> "Tick"], [op |-> "Heartbeat"], [op |-> "Restart"]}]
-    [] name = "issue" ->      \* the node's own (issued) invoices: no allowance for outgoing value; receiving; expiry
+    [] name \in {"issue", "issuex"} ->  \* the node's own (issued) invoices: no allowance for outgoing value;
+                                        \* receiving; restart before they were persisted; "issuex": expiry too
          [chans |-> {"c1", "c2"}, hashes |-> {"h1"},
           reqs |-> ChanReqs("c1", {<<>>, <<O("h1", 1)>>, <<R("h1", 1)>>}, FALSE)
               \cup ChanReqs("c2", {<<>>, <<O("h1", 1)>>}, FALSE)
-              \cup {[op |-> "IssueInvoice", h |-> "h1", a |-> 1], [op |-> "IssueInvoice", h |-> "h1", a |-> 2],
-                    [op |-> "AddInvoice", h |-> "h1", a |-> 1],
-                    [op |-> "Tick"], [op |-> "Heartbeat"], [op |-> "Restart"]}]
+              \cup {[op |-> "IssueInvoice", h |-> "h1", a |-> 1],
+                    [op |-> "AddInvoice", h |-> "h1", a |-> 1], [op |-> "Heartbeat"], [op |-> "Restart"]}
+              \cup (IF name = "issuex" THEN {[op |-> "IssueInvoice", h |-> "h1", a |-> 2], [op |-> "Tick"]} ELSE {})]
     [] name = "route" ->      \* forwarding: incoming on c1 covers outgoing on c2; unbacked attempts
          [chans |-> {"c1", "c2"}, hashes |-> {"h1"},
           reqs |-> ChanReqs("c1", {<<>>, <<R("h1", 1)>>, <<R("h1", 2)>>}, FALSE)
